@@ -21,7 +21,8 @@ Definition toy : prims :=
      b32_to_base32 := fun b => b;
      b32_from_base32 := fun d => Some d;
      b32_encode := fun h d => Some (len h :: h ++ d);
-     b32_decode := fun s => match s with [] => None | n :: r => Some (firstn (N.to_nat n) r, skipn (N.to_nat n) r) end |}.
+     b32_decode := fun s => match s with [] => None | n :: r => Some (firstn (N.to_nat n) r, skipn (N.to_nat n) r) end;
+     blake2b224 := fun _ => repeat 0 28 |}.
 
 Lemma bytes_ok_repeat0 n : bytes_ok (repeat 0 n).
 Proof. induction n; constructor; [lia|assumption]. Qed.
@@ -103,3 +104,6 @@ Proof.
         (conj toy_hard (conj toy_normalize3 (conj toy_pbkdf2 (conj toy_aead_roundtrip (conj toy_aead_shapes
         (conj toy_aead_authentic (conj toy_plain_by_ct (conj toy_base32 toy_bech32))))))))))))).
 Qed.
+
+Lemma toy_hash_shape : law_hash_shape toy.
+Proof. intros b. split; [reflexivity|apply bytes_ok_repeat0]. Qed.
